@@ -6,8 +6,10 @@ import subprocess, sys, os, json, re, shutil
 pid = sys.argv[1]
 mode = 'no-run' if '--no-run' in sys.argv else 'run'
 checks = [pid]
+offset = 0
 for a in sys.argv:
     if a.startswith('--checks='): checks = a.split('=')[1].split(',')
+    if a.startswith('--offset='): offset = int(a.split('=')[1])
 out = f'/tmp/seed_{pid}/out'
 notes = open(out + '/notes.md').read() if os.path.exists(out + '/notes.md') else ''
 for n in (1, 2):
@@ -27,7 +29,7 @@ for n in (1, 2):
         det[tier] = {'result': res, 'signatures': sigs}
         print(f'   {tier}: {res} {sigs[:4]}')
         if any(v == 'CAUGHT' for v in res.values()): break
-    d = f'/verif/seeded/{pid}/{n}'
+    d = f'/verif/seeded/{pid}/{n + offset}'
     os.makedirs(d, exist_ok=True)
     shutil.copy(f'{out}/patch{n}.diff', d + '/patch.diff')
     shutil.copy(f'{out}/demo{n}.rs', d + '/demo.rs')
@@ -37,7 +39,7 @@ for n in (1, 2):
         'source': 'fresh sub-agent given only the property text and a scratch worktree of /repo',
         'confirmed_by_me': confirmed,
         'verification': line[0],
-        'what_i_ran': [f'tools/verify_seed.sh {pid} {n}' + (' no-run' if mode == 'no-run' else ''), f'tools/try_mutant.py {",".join(checks)} --patch seeded/{pid}/{n}/patch.diff <tier>'],
+        'what_i_ran': [f'tools/verify_seed.sh {pid} {n}' + (' no-run' if mode == 'no-run' else ''), f'tools/try_mutant.py {",".join(checks)} --patch seeded/{pid}/{n + offset}/patch.diff <tier>'],
         'needs_to_manifest': 'see notes.md (section for change %d)' % n,
         'detection': det,
     }, open(d + '/meta.json', 'w'), indent=1)
